@@ -59,8 +59,13 @@ class Run:
         if err is not None and reached:
             chk.violation("rejected-after-boundary", "a configuration was rejected only after the cluster/HPC boundary was reached",
                           replay)
-        if res["loaded"] is not None:
-            reasons, undecided = drv.spec_invalid_reasons(res["loaded"])
+        if res["observed"] is not None:
+            diffs = drv.file_vs_loaded_differences(content, res["observed"])
+            if diffs:
+                chk.violation("load-loss:" + diffs[0].split(":")[0],
+                              "create_config_from_file does not deliver what the file says: " + "; ".join(diffs[:3]),
+                              dict(replay, differences=diffs))
+            reasons, undecided = drv.spec_invalid_reasons(res["observed"])
             if reasons and (err is None or reached):
                 sig = "invalid-accepted:" + reasons[0].split(" ")[0]
                 chk.violation(sig, "invalid configuration (%s) was not rejected before the HPC boundary" % reasons[0],
@@ -85,21 +90,27 @@ class Run:
 
     def roundtrip_case(self, desc, label):
         chk = self.chk
-        s1, s2 = drv.roundtrip(desc, self.tmp)
-        if s1 is None:
+        r = drv.roundtrip(desc, self.tmp)
+        if "error" in r:
             return None
-        chk.count(("roundtrip", json.dumps(s1, sort_keys=True)), nontrivial=bool(s1["jobs"]))
-        diffs = drv.roundtrip_differences(s1, s2)
+        s1 = r["s1"]
+        chk.count(("roundtrip", json.dumps(s1, sort_keys=True)), nontrivial=bool(r["o1"]["jobs"]))
+        replay = {"component": "JobConfiguration.dump / create_config_from_file", "label": label, "description": desc,
+                  "before": r["o1"]}
+        if "reload_error" in r:
+            chk.violation("roundtrip-unloadable", "a dumped configuration cannot be loaded back: %s" % (r["reload_error"],),
+                          dict(replay, serialized=s1))
+            return s1
+        diffs = drv.roundtrip_differences(r["o1"], r["o2"])
         if diffs:
-            chk.violation("roundtrip-loss:" + diffs[0].split(":")[0].split(" ")[-1] if ":" in diffs[0] else "roundtrip-loss",
+            chk.violation("roundtrip-loss:" + diffs[0].split(":")[0],
                           "dump + create_config_from_file changed the configuration: " + "; ".join(diffs[:3]),
-                          {"component": "JobConfiguration.dump / create_config_from_file", "label": label,
-                           "description": desc, "serialize_before": s1, "serialize_after": s2, "differences": diffs})
-        elif drv.canon(s1) != drv.canon(s2):
-            chk.tie_broken("round trip changes something outside the listed attributes",
-                           _short({"before": s1, "after": s2}))
+                          dict(replay, after=r["o2"], differences=diffs))
+        elif drv.canon(s1) != drv.canon(r["s2"]):
+            chk.tie_broken("serialize() differs after the round trip although the objects agree",
+                           _short({"before": s1, "after": r["s2"]}))
         try:
-            self.rt.add(drv.jterm(s1), "(Ok " + drv.jterm(s2) + ")", {"label": label, "before": s1, "after": s2})
+            self.rt.add(drv.jterm(s1), "(Ok " + drv.jterm(r["s2"]) + ")", {"label": label, "before": s1, "after": r["s2"]})
         except drv.OutOfDomain:
             self.dist["out_of_domain"] += 1
         return s1
@@ -157,8 +168,7 @@ def run_generated(chk, tmp):
             res2 = r.file_case(drv.file_content(d2), expect, "generated-%d+%s" % (i, kind))
             if kind in ("duplicate_name", "empty_command", "duplicate_id_name"):
                 # the same through the programmatic API: add_job must refuse
-                s1, e = drv.roundtrip(d2, tmp)
-                if s1 is not None:
+                if "error" not in drv.roundtrip(d2, tmp):
                     chk.violation("invalid-accepted:" + kind, "add_job accepted a configuration with " + kind,
                                   {"component": "GenericCommandConfiguration.add_job", "description": d2})
             if i < 2:
@@ -240,11 +250,12 @@ def run_directed(chk, tmp):
         except Exception as e:      # a case outside what run_file handles (e.g. upgrade path touching files)
             chk.tie_broken("directed case crashed the driver: " + label, repr(e)[:300])
             continue
-        ser = res["loaded"]
-        if ser is not None and expect == "valid":
-            # what JobSubmitter.create dumped is the loaded configuration: reload it
-            desc2 = {"jobs": [{k: v for k, v in j.items() if k != "extension"} for j in ser["jobs"]],
-                     "groups": ser["submission_groups"], **{k: ser[k] for k in drv.LIFECYCLE}}
+        obs = res["observed"]
+        if obs is not None and expect == "valid":
+            # the loaded configuration built again through the API, dumped and reloaded
+            desc2 = {"jobs": [{k: v for k, v in j.items() if not k.startswith("_") and k not in ("extension", "spark_config")}
+                              for j in obs["jobs"]],
+                     "groups": [g for g in res["loaded"]["submission_groups"]], **{k: obs[k] for k in drv.LIFECYCLE}}
             r.roundtrip_case(desc2, "directed: " + label)
     r.finish("directed")
     chk.notes.setdefault("input_distribution", {})["directed"] = {"cases": len(cases)}
@@ -339,15 +350,15 @@ def replay(path):
             print("file content:", json.dumps(obj["file_content"])[:3000])
             print("load error:", res["load_error"], " submit error:", res["submit_error"], " exception:", res["exc_class"])
             print("boundary events:", res["events"], " commands:", res["commands"])
-            if res["loaded"] is not None:
-                print("invalid because:", drv.spec_invalid_reasons(res["loaded"]))
+            if res["observed"] is not None:
+                print("invalid because:", drv.spec_invalid_reasons(res["observed"]))
         elif "description" in obj:
-            s1, s2 = drv.roundtrip(obj["description"], tmp)
+            r = drv.roundtrip(obj["description"], tmp)
             print("description:", json.dumps(obj["description"])[:3000])
-            if s1 is None:
-                print("construction failed:", s2)
+            if "error" in r or "reload_error" in r:
+                print("failed:", r.get("error") or r.get("reload_error"))
             else:
-                print("differences after dump + load:", drv.roundtrip_differences(s1, s2))
+                print("differences after dump + load:", drv.roundtrip_differences(r["o1"], r["o2"]))
         else:
             print(json.dumps(obj, indent=1)[:4000])
     finally:
